@@ -474,18 +474,26 @@ func isHandlersCell(v ssa.Value, m *ssa.Function) bool {
 		return false
 	}
 	sawParam := false
+	ok := true
 	for _, st := range stores {
-		if hp(st.Val) {
-			sawParam = true
-			continue
-		}
-		a := asCall(st.Val)
-		if a == nil || callName(&a.Call) != "builtin.append" {
-			return false
-		}
-		if !(cellOf(a.Call.Args[1]) == cell || hp(a.Call.Args[1])) || !isFresh(a.Call.Args[0]) {
-			return false
-		}
+		// a store may merge "unchanged" with the extended list: φ(handlers, append(fresh…, handlers...))
+		phiLeaves(st.Val, func(l ssa.Value) {
+			if hp(l) {
+				sawParam = true
+				return
+			}
+			if u, isU := l.(*ssa.UnOp); isU && u.Op == token.MUL && u.X == ssa.Value(cell) {
+				return // the variable's own current value
+			}
+			a := asCall(l)
+			if a == nil || callName(&a.Call) != "builtin.append" {
+				ok = false
+				return
+			}
+			if !(cellOf(a.Call.Args[1]) == cell || hp(a.Call.Args[1])) || !isFresh(a.Call.Args[0]) {
+				ok = false
+			}
+		})
 	}
-	return sawParam
+	return ok && sawParam
 }
